@@ -847,7 +847,7 @@ def plan(ctx):
 
 def run_models(ctx):
     t0 = time.time()
-    budget = ctx.n(58, 700)
+    budget = ctx.n(52, 700)
     cases = plan(ctx)
     done = 0
     for case, paths, moments in cases:
